@@ -334,3 +334,9 @@ def quit_flag_local(df):
             if l is not None and df.local_ty(l) == "bool":
                 return l
     return None
+
+
+def is_err_ret(x):
+    """an event-graph return node carrying the failure variant: `return Err(..)`, `Err(..)?`, `x?` all look alike"""
+    x = str(x)
+    return x.startswith("RET(agg:Result::Err") or x.startswith("RET(call:FromResidual") or x.startswith("RET(agg:Option::None")
